@@ -31,5 +31,6 @@ void inst(){
   rgb8_image_t a; gray8_image_t g;
   all_io(a, bmp_tag()); all_io(a, pnm_tag()); all_io(a, targa_tag()); all_io(a, png_tag()); all_io(a, jpeg_tag()); all_io(a, tiff_tag());
   all_io(g, pnm_tag()); all_io(g, png_tag());
+  rgb16_image_t p16; std::string name("f"); read_image(name, p16, tiff_tag());   // palette tiff files are read into rgb16
   scan(bmp_tag()); scan(pnm_tag()); scan(targa_tag()); scan(png_tag()); scan(jpeg_tag()); scan(tiff_tag());
 }
